@@ -5,11 +5,16 @@ call + full drain, `fire` = jump to the earliest live timer, `race…` = the cal
 that timer expires, just before its callback.  Observed per op: result/exception, futures resolved during the op in
 resolution order (sorted by id for task_done, which goes through `Event.set`), qsize, len(_getters), len(_putters),
 _unfinished_tasks, len(_finished._waiters), live timers; plus empty()/full() for the oracle.
+
+Compound op `["multi", [call, …]]` (Lean: `C35/Multi.lean`): the calls are made back-to-back inside ONE loop iteration
+(no done-callback runs, no timer fires between them), then one full drain.  Calls: put / putNowait / get / getNowait /
+taskDone / join / cancel.  Observed per call: result/exception and the six observers right after it (stale entries of
+`_finished._waiters` and stale timer handles included); after the drain: all resolutions of the op sorted by id + observers.
 """
 import itertools, re
 from collections import Counter
 from core.wire import atom, line
-from props.c33 import Rig, reply_vals, wire_op
+from props.c33 import Rig, exc_name, reply_vals, wire_op
 
 ID = "C35"
 LEAN_TARGETS = ["TornadoModel.C35.Props"]
@@ -19,6 +24,11 @@ THEOREMS = [_T + n for n in (
     "order_fifo", "order_lifo", "order_prio", "no_assertion", "waiters_consistent", "finished_iff", "unfinished_eq",
     "join_iff", "extra_task_done_raises", "task_done_le_puts", "getters_fifo", "putters_fifo",
     "refines_spec", "refines_spec_state",
+    # histories with compound ops (several calls inside one loop iteration), incl. the states between the calls
+    "multi_extends", "multi_inv_after", "multi_inv_inside", "multi_disc_maxsize", "multi_conservation",
+    "multi_size_le_maxsize", "multi_order_fifo", "multi_order_lifo", "multi_order_prio", "multi_no_assertion",
+    "multi_finished_iff", "multi_unfinished_eq", "multi_task_done", "multi_join_iff", "multi_refines_spec",
+    "multi_refines_spec_state",
 )]
 TRUSTED = [
     "heapq: heappop returns a minimum, heappush/heappop preserve the multiset (the model keeps the heap's content as a sorted list)",
@@ -31,31 +41,42 @@ ASSUMPTIONS = [
     "the application touches the futures only through cancel(); maxsize >= 0",
     "modelling decision (not a finding): when a getter makes room, the oldest blocked putter's item is admitted *before* the "
     "getter's pick, so a LIFO/priority get may return that item; the specification defines acceptance order this way",
+    "compound ops (several calls in one loop iteration) are made from outside a timer callback (no `race` variant), and "
+    "inside a compound op cancel() is never applied to a *timed* join: such a join returns gen.with_timeout's wrapper, whose "
+    "resolution lags the Event waiter by a loop iteration; the model identifies the two futures, which is exact at op "
+    "boundaries only (cancelling plain joins, getters and putters inside a compound op is covered)",
 ]
 RULE = ("op sequences (<=25 ops, <=10 futures) over Queue/LifoQueue/PriorityQueue x maxsize 0..3 with items 0..4 (duplicates), "
-        "timed/untimed put/get/join, put_nowait/get_nowait, task_done, fire, cancel, same-iteration races; non-trivial = a "
+        "timed/untimed put/get/join, put_nowait/get_nowait, task_done, fire, cancel, same-iteration races, and compound ops "
+        "(2-5 calls made back-to-back inside one loop iteration, then one drain); non-trivial = a "
         "blocked getter or putter was later served and some blocked waiter timed out or was cancelled; distinct by canonical JSON")
 EXHAUSTIVE = {"quick": True, "thorough": True}
 CLAUSES = {
-    "every successfully put item is returned by exactly one get or remains queued": "conservation + conservation_count (history variables tied by wrapping _put/_get)",
-    "items come out in the queue's order": "order_fifo + order_lifo + order_prio",
-    "the queue never holds more than maxsize items": "size_le_maxsize (op boundaries)",
+    "every successfully put item is returned by exactly one get or remains queued": "conservation + conservation_count (history variables tied by wrapping _put/_get); multi_conservation (also between the calls of one loop iteration)",
+    "items come out in the queue's order": "order_fifo + order_lifo + order_prio; multi_order_fifo + multi_order_lifo + multi_order_prio",
+    "the queue never holds more than maxsize items": "size_le_maxsize (op boundaries); multi_size_le_maxsize (after every call inside an iteration)",
     "blocked getters and putters are served in arrival order": "getters_fifo + putters_fifo (first live entry of the append-only deque) + waiters_consistent + no_assertion; end-to-end: refines_spec (trace equality with the sequential Spec whose wait lists are FIFO)",
     "timed-out operations have no effect": "refines_spec + refines_spec_state (in the Spec a timed-out waiter just leaves its list; the model produces the same trace)",
-    "join completes exactly when every put has been matched by task_done": "finished_iff + unfinished_eq + join_iff; wake-up of pending joins at the last task_done: refines_spec (Spec.taskDone completes every pending join)",
-    "extra task_done calls raise": "extra_task_done_raises + task_done_le_puts",
+    "join completes exactly when every put has been matched by task_done": "finished_iff + unfinished_eq + join_iff; wake-up of pending joins at the last task_done: refines_spec (Spec.taskDone completes every pending join); several calls per loop iteration: multi_finished_iff + multi_unfinished_eq + multi_join_iff + multi_refines_spec",
+    "extra task_done calls raise": "extra_task_done_raises + task_done_le_puts; and only those: multi_task_done (at any point of an iteration task_done returns normally iff it matches a put, else ValueError) + multi_no_assertion",
+    "for any schedule": "multi_extends (histories of primitive ops = compound-free histories of run2) + multi_inv_after + multi_inv_inside + multi_disc_maxsize + multi_refines_spec + multi_refines_spec_state",
 }
 PARALLEL = True
 CASE_TIMEOUT = 120
 LEVEL_NOTE = ("exhaustive sub-domains: quick = every op sequence of length 3 over the 12-letter alphabet _A12 for 6 class/maxsize "
               "configurations and of length 4 over _A7 for Queue(1)/PriorityQueue(1); thorough = length 3 over _A16 for 9 configurations, "
-              "length 4 over _A12 and length 5 over _A7 for maxsize-1 queues of each class, length 6 over _A5")
+              "length 4 over _A12 and length 5 over _A7 for maxsize-1 queues of each class, length 6 over _A5; compound ops: every "
+              "compound of length 2 over the 10 calls _M10 and of length 3 over _M6 in each of the 7 (6) contexts _PREFIX for "
+              "Queue(2)/PriorityQueue(1), length 4 over _M4 for LifoQueue(0) (thorough: length 2 over _M12, 3 over _M10, 4 over _M6, "
+              "5 over _M4 for 5 / 5 / 3 / 2 configurations)")
 
 _CLS = {"fifo": "Queue", "lifo": "LifoQueue", "prio": "PriorityQueue"}
 
 
 def _model_op(op):
     k = op[0]
+    if k == "multi":
+        return [atom("multi"), [_model_op(c) for c in op[1]]]
     if k == "put":
         return [atom("put"), op[1], op[2]]
     if k in ("get", "join"):
@@ -80,11 +101,49 @@ def run_impl(case):
         convs.append(conv)
         rig.track(fut, conv)
         return "U"
+    def one(c):
+        """one call of a compound op (raises what the call raises)"""
+        k = c[0]
+        if k == "put":
+            to = rig.timeout_arg(c[2], c[3] if len(c) > 3 else "rel")
+            return track(q.put(c[1], to) if to is not None else q.put(c[1]), none0)
+        if k == "putNowait":
+            q.put_nowait(c[1])
+            return "U"
+        if k == "get":
+            to = rig.timeout_arg(c[1], c[2] if len(c) > 2 else "rel")
+            return track(q.get(to) if to is not None else q.get(), ident)
+        if k == "getNowait":
+            return ["V", ident(q.get_nowait())]
+        if k == "taskDone":
+            q.task_done()
+            done[0] += 1
+            return "U"
+        if k == "join":
+            to = rig.timeout_arg(c[1], c[2] if len(c) > 2 else "rel")
+            return track(q.join(to) if to is not None else q.join(), none0)
+        if k == "cancel":
+            return rig.futs[c[1]].cancel() if c[1] < len(rig.futs) else False
+        raise AssertionError(c)
+
+    def many(cs):
+        res = ["M"]
+        for c in cs:
+            try:
+                r = one(c)
+            except Exception as e:
+                r = exc_name(e)
+            res.append([r, q.qsize(), len(q._getters), len(q._putters), q._unfinished_tasks,
+                        len(q._finished._waiters), rig.ntimers()])
+        return res
     outs = []
     for op in case["ops"]:
         k = op[0]
         race = k.startswith("race")
-        if k == "put":
+        if k == "multi":
+            r, evs = rig.call(lambda op=op: many(op[1]))
+            evs = sorted(evs, key=lambda e: e[0])
+        elif k == "put":
             to = rig.timeout_arg(op[2], op[3] if len(op) > 3 else "rel")
             r, evs = rig.call(lambda op=op, to=to: track(q.put(op[1], to) if to is not None else q.put(op[1]), none0))
         elif k in ("putNowait", "racePutNowait"):
@@ -130,34 +189,60 @@ def spec_requests(case, impl):
     return [line(ID, "spec", atom(case["cls"]), case["maxsize"], [_model_op(o) for o in case["ops"]])]
 
 
+def _calls(op):
+    """the calls an op consists of (a primitive op is one call, race variants mapped to the plain call name)"""
+    if op[0] == "multi":
+        return [list(c) for c in op[1]]
+    k = op[0]
+    if k.startswith("race"):
+        k = k[4].lower() + k[5:]
+    return [[k] + list(op[1:])]
+
+
+def _creators(case):
+    """kind of the call that created future i (put / get / join), in creation order"""
+    return [c[0] for op in case["ops"] for c in _calls(op) if c[0] in ("put", "get", "join")]
+
+
 def spec_violation(case, impl, replies):
     if impl["cberrors"]:
         return "op ? callback raised: %s" % impl["cberrors"][0]
     want = reply_vals(replies[0])[0]
     m = case["maxsize"]
+    kinds = _creators(case)
     put_item = {}                 # future id -> item, for put futures
     nfut = 0
     accepted, delivered = Counter(), Counter()
     for i, (op, w, g) in enumerate(zip(case["ops"], want, impl["outs"])):
         k = op[0]
-        if w[0] != g[0]:
-            return "op %d %s: sequential queue says result %r, implementation %r" % (i, k, w[0], g[0])
+        multi = k == "multi"
+        got = (["M"] + [c[0] for c in g[0][1:]]) if multi and isinstance(g[0], list) else g[0]
+        if w[0] != got:
+            if multi and isinstance(got, list) and len(got) == len(w[0]):
+                j = next(j for j in range(1, len(got)) if got[j] != w[0][j])
+                return "op %d multi: call %d %s: sequential queue says result %r, implementation %r" % (
+                    i, j - 1, op[1][j - 1][0], w[0][j], got[j])
+            return "op %d %s: sequential queue says result %r, implementation %r" % (i, k, w[0], got)
         if w[1] != g[1]:
             return "op %d %s: sequential queue resolves %r, implementation %r" % (i, k, w[1], g[1])
         # --- the clauses of the statement, applied to the observations directly
-        if k in ("put", "get", "join") and g[0] == "U":
-            if k == "put":
-                put_item[nfut] = op[1]
-            nfut += 1
-        if k in ("putNowait", "racePutNowait") and g[0] == "U":
-            accepted[op[1]] += 1
-        if k in ("getNowait", "raceGetNowait") and isinstance(g[0], list):
-            delivered[g[0][1]] += 1
+        results = got[1:] if multi else [got]
+        for j, (c, r) in enumerate(zip(_calls(op), results)):
+            if c[0] in ("put", "get", "join") and r == "U":
+                if c[0] == "put":
+                    put_item[nfut] = c[1]
+                nfut += 1
+            if c[0] == "putNowait" and r == "U":
+                accepted[c[1]] += 1
+            if c[0] == "getNowait" and isinstance(r, list):
+                delivered[r[1]] += 1
+            if multi and m > 0 and g[0][j + 1][1] > m:
+                return "op %d multi: call %d %s: qsize %d exceeds maxsize %d" % (i, j, c[0], g[0][j + 1][1], m)
         for fid, st in g[1]:
             if isinstance(st, list):
                 if fid in put_item:
                     accepted[put_item[fid]] += 1
-                elif st[1] != 0 or _is_get(case, fid):
+                elif st[1] != 0 or (fid < len(kinds) and kinds[fid] == "get"):
                     delivered[st[1]] += 1
         if m > 0 and g[2] > m:
             return "op %d %s: qsize %d exceeds maxsize %d" % (i, k, g[2], m)
@@ -169,39 +254,21 @@ def spec_violation(case, impl, replies):
     return None
 
 
-def _is_get(case, fid):
-    n = 0
-    for op in case["ops"]:
-        if op[0] in ("put", "get", "join"):
-            if n == fid:
-                return op[0] == "get"
-            n += 1
-    return False
-
-
 def nontrivial(case, impl):
     served_later = False
+    kinds = _creators(case)
     created = {}
     n = 0
     for i, (op, o) in enumerate(zip(case["ops"], impl["outs"])):
-        if op[0] in ("put", "get", "join") and o[0] == "U":
-            created[n] = i
-            n += 1
+        for c in _calls(op):
+            if c[0] in ("put", "get", "join"):
+                created[n] = i
+                n += 1
         for fid, st in o[1]:
-            if isinstance(st, list) and created.get(fid, i) < i and not _is_join(case, fid):
+            if isinstance(st, list) and created.get(fid, i) < i and not (fid < len(kinds) and kinds[fid] == "join"):
                 served_later = True
     dead = any(e[1] in ("TO", "C") for o in impl["outs"] for e in o[1])
     return served_later and dead
-
-
-def _is_join(case, fid):
-    n = 0
-    for op in case["ops"]:
-        if op[0] in ("put", "get", "join"):
-            if n == fid:
-                return op[0] == "join"
-            n += 1
-    return False
 
 
 def stats(case, impl):
@@ -209,7 +276,23 @@ def stats(case, impl):
            "enum" if case.get("enum") else "random"]
     for op, o in zip(case["ops"], impl["outs"]):
         out.append("op:" + op[0])
-        if isinstance(o[0], str) and o[0] not in ("U",):
+        if op[0] == "multi" and isinstance(o[0], list):
+            out.append("multi:len:%d" % len(op[1]))
+            zeros = stale = 0
+            for c, r in zip(op[1], o[0][1:]):
+                out.append("call:" + c[0])
+                if isinstance(r[0], str) and r[0] != "U":
+                    out.append("res:call:%s:%s" % (c[0], r[0]))
+                if c[0] == "taskDone" and r[0] == "U" and r[4] == 0:
+                    zeros += 1
+                    if r[5] > 0:
+                        stale += 1
+                        out.append("multi:set-with-waiters")
+            if zeros >= 2:
+                out.append("multi:finished-set-twice")
+            if stale >= 2:
+                out.append("multi:set-meets-stale-waiter")     # Event.set iterates a waiter it already resolved
+        elif isinstance(o[0], str) and o[0] not in ("U",):
             out.append("res:%s:%s" % (op[0], o[0]))
         for e in o[1]:
             out.append("ev:%s:%s" % (op[0], e[1] if isinstance(e[1], str) else "R"))
@@ -217,17 +300,39 @@ def stats(case, impl):
 
 
 def signature(case, impl, why):
-    m = re.match(r"op \S+ (\w+): ", why)
+    m = re.match(r"op \S+ (\w+): (?:call \d+ (\w+): )?", why)
     kind = ("callback-error" if "callback raised" in why else "result" if "says result" in why else
             "maxsize" if "exceeds maxsize" in why else "conservation" if "conservation" in why else
             "observers" if "empty()/full()" in why else "resolution")
-    return "%s/%s/%s" % (case["cls"], m.group(1) if m else "?", kind)
+    where = "?" if not m else (m.group(1) if not m.group(2) else "%s.%s" % (m.group(1), m.group(2)))
+    return "%s/%s/%s" % (case["cls"], where, kind)
+
+
+def _valid(case):
+    """domain restriction of compound ops (see ASSUMPTIONS): no cancel of a timed join *inside* a compound op"""
+    timed = []                    # per created future: is it a join with a deadline
+    for op in case["ops"]:
+        for c in _calls(op):
+            if op[0] == "multi" and c[0] == "cancel" and c[1] < len(timed) and timed[c[1]]:
+                return False
+            if c[0] in ("put", "get", "join"):
+                timed.append(c[0] == "join" and c[1] is not None)
+    return True
 
 
 def shrink(case):
     ops = case["ops"]
-    for i in range(len(ops)):
-        yield {**case, "ops": ops[:i] + ops[i + 1:]}
+
+    def cands():
+        for i in range(len(ops)):
+            yield {**case, "ops": ops[:i] + ops[i + 1:]}
+        for i, op in enumerate(ops):
+            if op[0] == "multi":
+                for j in range(len(op[1])):
+                    cs = op[1][:j] + op[1][j + 1:]
+                    if cs:
+                        yield {**case, "ops": ops[:i] + [["multi", cs]] + ops[i + 1:]}
+    return (c for c in cands() if _valid(c))
 
 
 # ------------------------------------------------------------------------------------------ generators
@@ -239,43 +344,46 @@ _A5 = ["put1", "putT0", "getT", "fire", "racePnw2"]
 
 
 def _enum_seq(letters):
+    """letters -> ops; a tuple of letters is a compound op (its calls share the deadline counter)"""
     ops, k = [], 0
 
     def dl():
         nonlocal k
         k += 1
-        return _DL[k - 1], ("rel" if k % 2 else "abs")
-    for a in letters:
+        return _DL[(k - 1) % len(_DL)] + 12 * ((k - 1) // len(_DL)), ("rel" if k % 2 else "abs")
+
+    def one(a):
         if a.startswith("putT"):
-            d, md = dl(); ops.append(["put", int(a[4:]), d, md])
-        elif a.startswith("put"):
-            ops.append(["put", int(a[3:]), None, "rel"])
-        elif a.startswith("pnw"):
-            ops.append(["putNowait", int(a[3:])])
-        elif a.startswith("racePnw"):
-            ops.append(["racePutNowait", int(a[7:])])
-        elif a == "get":
-            ops.append(["get", None, "rel"])
-        elif a == "getT":
-            d, md = dl(); ops.append(["get", d, md])
-        elif a == "gnw":
-            ops.append(["getNowait"])
-        elif a == "raceGnw":
-            ops.append(["raceGetNowait"])
-        elif a == "td":
-            ops.append(["taskDone"])
-        elif a == "raceTd":
-            ops.append(["raceTaskDone"])
-        elif a == "join":
-            ops.append(["join", None, "rel"])
-        elif a == "joinT":
-            d, md = dl(); ops.append(["join", d, md])
-        elif a == "fire":
-            ops.append(["fire"])
-        elif a in ("c0", "c1"):
-            ops.append(["cancel", int(a[1])])
-        else:
-            raise AssertionError(a)
+            d, md = dl(); return ["put", int(a[4:]), d, md]
+        if a.startswith("put"):
+            return ["put", int(a[3:]), None, "rel"]
+        if a.startswith("pnw"):
+            return ["putNowait", int(a[3:])]
+        if a.startswith("racePnw"):
+            return ["racePutNowait", int(a[7:])]
+        if a == "get":
+            return ["get", None, "rel"]
+        if a == "getT":
+            d, md = dl(); return ["get", d, md]
+        if a == "gnw":
+            return ["getNowait"]
+        if a == "raceGnw":
+            return ["raceGetNowait"]
+        if a == "td":
+            return ["taskDone"]
+        if a == "raceTd":
+            return ["raceTaskDone"]
+        if a == "join":
+            return ["join", None, "rel"]
+        if a == "joinT":
+            d, md = dl(); return ["join", d, md]
+        if a == "fire":
+            return ["fire"]
+        if a in ("c0", "c1", "c2"):
+            return ["cancel", int(a[1])]
+        raise AssertionError(a)
+    for a in letters:
+        ops.append(["multi", [one(x) for x in a]] if isinstance(a, tuple) else one(a))
     return ops
 
 
@@ -285,16 +393,45 @@ def _enum_cases(L, alpha, configs):
             yield {"cls": cls, "maxsize": m, "ops": _enum_seq(letters), "enum": True}
 
 
+# --- compound ops: every compound of length L over an alphabet of calls, in every context (prefix of primitive ops
+# that sets up pending joins / getters / putters), followed by two probes (is `_finished` set? is task_done refused?)
+_M10 = ["pnw1", "pnw0", "gnw", "td", "join", "joinT", "put2", "get", "c0", "c1"]
+_M12 = _M10 + ["putT2", "getT"]
+_M6 = ["pnw1", "gnw", "td", "join", "get", "c0"]
+_M4 = ["pnw1", "gnw", "td", "join"]
+_PREFIX = [
+    [],                                  # fresh queue, `_finished` set
+    ["pnw1", "join"],                    # one item queued and unfinished, one pending join
+    ["pnw1", "gnw", "join"],             # queue empty, one unfinished, one pending join
+    ["pnw1", "joinT", "join"],           # a timed (wrapped) and a plain pending join
+    ["get"],                             # a blocked getter
+    ["pnw3", "put1", "join"],            # maxsize 1: a blocked putter (its admission clears `_finished` again)
+    ["pnw1", "join", "join", "c1"],      # a cancelled join beside a live one
+]
+_PROBE = ["td", "join"]
+
+
+def _enum_multi(L, alpha, prefixes, configs):
+    for cls, m in configs:
+        for pre in prefixes:
+            for letters in itertools.product(alpha, repeat=L):
+                c = {"cls": cls, "maxsize": m, "ops": _enum_seq(list(pre) + [tuple(letters)] + _PROBE), "enum": True}
+                if _valid(c):
+                    yield c
+
+
 _C6 = [("fifo", 0), ("fifo", 1), ("fifo", 2), ("lifo", 1), ("prio", 1), ("prio", 2)]
 _C9 = [(c, m) for c in ("fifo", "lifo", "prio") for m in (0, 1, 2)]
 
 
-def _rand_case(rng):
+def _rand_case(rng, pm=None):
     cls = rng.choice(["fifo", "lifo", "prio"])
     m = rng.choice([0, 1, 1, 2, 2, 3])
     L = rng.randint(1, 25)
     pool = list(range(0, 60))
     rng.shuffle(pool)
+    if pm is None:
+        pm = rng.choice([0.0, 0.0, 0.1, 0.2])     # probability that a slot is a compound op
 
     def dl():
         if rng.random() < 0.45:
@@ -304,26 +441,53 @@ def _rand_case(rng):
             pool.remove(d)
         return d, rng.choice(["abs", "rel"])
     ops, nf = [], 0
+    timed_join = []               # per future: timed join (never cancelled inside a compound op)
     bias = rng.choice(["put", "get", "even"])
+
+    def one_call():
+        """a call for a compound op: nowait / task_done heavy, joins, a few blocking calls and cancels"""
+        nonlocal nf
+        x = rng.random()
+        item = rng.choice([0, 1, 1, 2, 3, 4])
+        if x < 0.26:
+            return ["putNowait", item]
+        if x < 0.46:
+            return ["getNowait"]
+        if x < 0.70:
+            return ["taskDone"]
+        if x < 0.80 and nf < 10:
+            d, md = dl() if rng.random() < 0.4 else (None, "rel")
+            nf += 1; timed_join.append(d is not None)
+            return ["join", d, md]
+        if x < 0.87 and nf < 10:
+            d, md = dl(); nf += 1; timed_join.append(False)
+            return ["put", item, d, md]
+        if x < 0.94 and nf < 10:
+            d, md = dl(); nf += 1; timed_join.append(False)
+            return ["get", d, md]
+        ws = [w for w in range(nf + 1) if not (w < nf and timed_join[w])]
+        return ["cancel", rng.choice(ws)]
     for _ in range(L):
         x = rng.random()
         pp = {"put": 0.35, "get": 0.2, "even": 0.27}[bias]
         pg = {"put": 0.2, "get": 0.35, "even": 0.27}[bias]
         item = rng.choice([0, 1, 1, 2, 3, 4])
-        if x < pp:
+        if pm and rng.random() < pm:
+            ops.append(["multi", [one_call() for _ in range(rng.choice([2, 2, 3, 3, 4, 5]))]])
+        elif x < pp:
             if rng.random() < 0.7 and nf < 10:
-                d, md = dl(); ops.append(["put", item, d, md]); nf += 1
+                d, md = dl(); ops.append(["put", item, d, md]); nf += 1; timed_join.append(False)
             else:
                 ops.append([rng.choice(["putNowait", "putNowait", "racePutNowait"]), item])
         elif x < pp + pg:
             if rng.random() < 0.7 and nf < 10:
-                d, md = dl(); ops.append(["get", d, md]); nf += 1
+                d, md = dl(); ops.append(["get", d, md]); nf += 1; timed_join.append(False)
             else:
                 ops.append([rng.choice(["getNowait", "getNowait", "raceGetNowait"])])
         elif x < pp + pg + 0.12:
             ops.append([rng.choice(["taskDone", "taskDone", "raceTaskDone"])])
         elif x < pp + pg + 0.19 and nf < 10:
-            d, md = dl(); ops.append(["join", d, md]); nf += 1
+            d, md = dl(); ops.append(["join", d, md]); nf += 1; timed_join.append(d is not None)
         elif x < pp + pg + 0.32:
             ops.append(["fire"])
         else:
@@ -335,17 +499,27 @@ def gen_cases(rng, tier):
     if tier == "quick":
         yield from _enum_cases(3, _A12, _C6)
         yield from _enum_cases(4, _A7, [("fifo", 1), ("prio", 1)])
+        yield from _enum_multi(2, _M10, _PREFIX, [("fifo", 2), ("prio", 1)])
+        yield from _enum_multi(3, _M6, _PREFIX[:6], [("fifo", 2), ("prio", 1)])
+        yield from _enum_multi(4, _M4, [_PREFIX[1], _PREFIX[3]], [("lifo", 0)])
         n_rand = 5000
     elif tier == "thorough":
         yield from _enum_cases(3, _A16, _C9)
         yield from _enum_cases(4, _A12, [("fifo", 1), ("lifo", 1), ("prio", 1)])
         yield from _enum_cases(5, _A7, [("fifo", 1), ("lifo", 1), ("prio", 1)])
         yield from _enum_cases(6, _A5, [("fifo", 1), ("prio", 1)])
+        c5 = [("fifo", 0), ("fifo", 1), ("fifo", 2), ("lifo", 2), ("prio", 1)]
+        yield from _enum_multi(2, _M12, _PREFIX, c5)
+        yield from _enum_multi(3, _M10, _PREFIX, c5)
+        yield from _enum_multi(4, _M6, _PREFIX[:6], [("fifo", 2), ("lifo", 0), ("prio", 1)])
+        yield from _enum_multi(5, _M4, [_PREFIX[1], _PREFIX[3], _PREFIX[5]], [("fifo", 0), ("prio", 1)])
         n_rand = 30000
     else:
         n_rand = 4000
-    for _ in range(n_rand):
-        yield _rand_case(rng)
+    for i in range(n_rand):
+        c = _rand_case(rng, pm=0.35 if i % 8 == 7 else None)
+        assert _valid(c)
+        yield c
 
 
 def describe(case):
